@@ -22,6 +22,7 @@ var errIDAlreadyExists = errors.New("id already exists")
 var errPathNotFound = errors.New("path not found")
 var errKeyHasHooksSet = errors.New("key has hooks set")
 var errKeyHasChannelsSet = errors.New("key has channels set")
+var errHookChanSameName = errors.New("hooks and channels cannot share the same name")
 var errNotRectangle = errors.New("not a rectangle")
 
 func errInvalidArgument(arg string) error {
